@@ -89,8 +89,12 @@ pub mod io {
     // ---- std::io::BufRead ----
     // fill_buf returns a NON-EMPTY PREFIX OF ARBITRARY LENGTH of remaining() unless it is empty.
     pub trait BufRead: Read {
+        // ghost: a lower bound the source happens to guarantee for its windows (UNCONSTRAINED — may be 0 or 1).
+        // It only exists so that a contract can say "correct whenever the window holds at least N bytes".
+        spec fn min_window(&self) -> nat;
         fn fill_buf(&mut self) -> (r: Result<&[u8]>)
-            ensures final(self).remaining() == old(self).remaining(),
+            ensures final(self).remaining() == old(self).remaining(), final(self).min_window() == old(self).min_window(),
+                r matches Ok(w) ==> (w@.len() >= old(self).min_window() || w@.len() == old(self).remaining().len()),
                 final(self).budget() <= old(self).budget(),
                 r matches Ok(w) ==> w@.len() <= old(self).remaining().len() && w@ == old(self).remaining().subrange(0, w@.len() as int)
                         && (w@.len() == 0 ==> old(self).remaining().len() == 0) && final(self).errored() == old(self).errored(),
@@ -98,6 +102,7 @@ pub mod io {
         fn consume(&mut self, amt: usize)
             requires amt <= old(self).remaining().len(),
             ensures final(self).remaining() == old(self).remaining().subrange(amt as int, old(self).remaining().len() as int),
-                final(self).budget() == old(self).budget(), final(self).errored() == old(self).errored();
+                final(self).budget() == old(self).budget(), final(self).errored() == old(self).errored(),
+                final(self).min_window() == old(self).min_window();
     }
 }
